@@ -81,7 +81,7 @@ Fixpoint adec (probs : list Z) (st : Z * Z * Z) : list bool :=
 Definition probs_ok (ps : list (bool * Z)) : Prop := Forall (fun bp => 0 <= snd bp <= 255) ps.
 
 (** one encoder step, unfolded *)
-Lemma aput_spec b p R L k : 128 <= R <= 255 -> 0 <= p <= 255 ->
+Lemma aput_spec (b : bool) p R L k : 128 <= R <= 255 -> 0 <= p <= 255 ->
   exists t, 0 <= t /\
     let s := nsplit R p in
     let R1 := if b then R - s else s in
@@ -143,7 +143,155 @@ Proof.
       f_equal.
       replace (if b then X - L * w - s * w else X - L * w) with (X - L1 * w)
         by (unfold L1; destruct b; ring).
-      replace (X - L1 * w) with (X - L1 * 2 ^ t * q) by (unfold w; rewrite Epow; ring).
+      replace (X - L1 * w) with (X - L1 * 2 ^ t * q) by (rewrite Epow; ring).
       replace (J - k - t) with (J - (k + t)) by lia.
       exact Hdec.
+Qed.
+
+(** * The RFC decoder of Vp8Bool refines the abstract decoder *)
+Definition is_byte (b : Z) : Prop := 0 <= b <= 255.
+
+(** big-endian value of a byte list *)
+Fixpoint bval (l : list Z) : Z :=
+  match l with
+  | [] => 0
+  | b :: tl => b * 2 ^ (8 * Z.of_nat (length tl)) + bval tl
+  end.
+
+Lemma bval_bound l : Forall is_byte l -> 0 <= bval l < 2 ^ (8 * Z.of_nat (length l)).
+Proof.
+  induction l as [|b tl IH]; intros H; cbn [bval length].
+  - cbn. lia.
+  - inversion H as [|? ? Hb Ht]; subst. specialize (IH Ht).
+    replace (8 * Z.of_nat (S (length tl))) with (8 + 8 * Z.of_nat (length tl)) by lia.
+    rewrite Z.pow_add_r by lia. change (2 ^ 8) with 256.
+    unfold is_byte in Hb. set (W := 2 ^ (8 * Z.of_nat (length tl))) in *. nia.
+Qed.
+
+(** concrete state (value, range, count, rest) against abstract (R, D, j):
+    value = a * 2^count, D = a * 2^(8m) + bval rest, j = 8m + 8 - count *)
+Definition drel (v r c : Z) (rest : list Z) (R D j : Z) : Prop :=
+  r = R /\ 0 <= c < 8 /\ Forall is_byte rest /\
+  exists a, 0 <= a /\ v = a * 2 ^ c /\ v < 65536 /\
+    D = a * 2 ^ (8 * Z.of_nat (length rest)) + bval rest /\
+    j = 8 * Z.of_nat (length rest) + 8 - c /\ D < R * 2 ^ j.
+
+Lemma pow_split c : 0 <= c < 8 -> 2 ^ c * 2 ^ (8 - c) = 256 /\ 0 < 2 ^ c /\ 0 < 2 ^ (8 - c).
+Proof.
+  intros H. rewrite <- Z.pow_add_r by lia. replace (c + (8 - c)) with 8 by lia.
+  repeat split; try reflexivity; apply Z.pow_pos_nonneg; lia.
+Qed.
+
+Lemma drel_small v r c rest R D j : drel v r c rest R D j -> 1 <= R -> v < R * 256.
+Proof.
+  intros (-> & Hc & Hb & a & Ha & -> & Hv & -> & -> & HD) HR.
+  destruct (pow_split c Hc) as (Hgu & Hg & Hu).
+  pose proof (bval_bound rest Hb) as HF.
+  set (m8 := 8 * Z.of_nat (length rest)) in *.
+  replace (m8 + 8 - c) with ((8 - c) + m8) in HD by lia.
+  rewrite Z.pow_add_r in HD by lia.
+  set (W := 2 ^ m8) in *. set (g := 2 ^ c) in *. set (u := 2 ^ (8 - c)) in *.
+  assert (0 < W) by (unfold W; apply Z.pow_pos_nonneg; lia).
+  assert (a < R * u) by nia. nia.
+Qed.
+
+(** the decision of the 16-bit comparison is the abstract one *)
+Lemma drel_decision v r c rest R D j s : drel v r c rest R D j -> 0 <= s ->
+  (s * 256 <=? v) = (s * 2 ^ j <=? D).
+Proof.
+  intros (-> & Hc & Hb & a & Ha & -> & Hv & -> & -> & HD) Hs.
+  destruct (pow_split c Hc) as (Hgu & Hg & Hu).
+  pose proof (bval_bound rest Hb) as HF.
+  set (m8 := 8 * Z.of_nat (length rest)) in *.
+  replace (m8 + 8 - c) with ((8 - c) + m8) by lia.
+  rewrite Z.pow_add_r by lia.
+  set (W := 2 ^ m8) in *. set (g := 2 ^ c) in *. set (u := 2 ^ (8 - c)) in *.
+  assert (0 < W) by (unfold W; apply Z.pow_pos_nonneg; lia).
+  destruct (Z.leb_spec (s * 256) (a * g)); destruct (Z.leb_spec (s * (u * W)) (a * W + bval rest));
+    try reflexivity; exfalso.
+  - assert (s * u <= a) by nia. nia.
+  - assert (s * u <= a) by nia. nia.
+Qed.
+
+(** subtracting the split on both sides keeps the relation *)
+Lemma drel_sub v r c rest R D j s : drel v r c rest R D j -> 0 <= s -> s * 256 <= v -> s <= R ->
+  drel (v - s * 256) (r - s) c rest (R - s) (D - s * 2 ^ j) j.
+Proof.
+  intros (-> & Hc & Hb & a & Ha & -> & Hv & -> & -> & HD) Hs Hle HsR.
+  destruct (pow_split c Hc) as (Hgu & Hg & Hu).
+  set (m8 := 8 * Z.of_nat (length rest)) in *.
+  assert (Ej : 2 ^ (m8 + 8 - c) = 2 ^ (8 - c) * 2 ^ m8).
+  { rewrite <- Z.pow_add_r by lia. f_equal. lia. }
+  rewrite Ej in *.
+  set (W := 2 ^ m8) in *. set (g := 2 ^ c) in *. set (u := 2 ^ (8 - c)) in *.
+  assert (0 < W) by (unfold W; apply Z.pow_pos_nonneg; lia).
+  split; [reflexivity|]. split; [exact Hc|]. split; [exact Hb|].
+  exists (a - s * u). repeat split; try nia.
+  all: fold m8; try rewrite Ej; fold W u; try nia.
+Qed.
+
+Lemma drel_range v r c rest R D j R' : drel v r c rest R D j -> D < R' * 2 ^ j ->
+  drel v R' c rest R' D j.
+Proof.
+  intros (-> & Hc & Hb & a & Ha & Hv & Hv2 & HDe & Hj & HD) H.
+  split; [reflexivity|]. split; [exact Hc|]. split; [exact Hb|].
+  exists a. repeat split; assumption.
+Qed.
+
+(** normalisation loop *)
+Lemma normalize_refines : forall fuel v r c rest pos R D j s r2 s2,
+  drel v r c rest R D j -> 1 <= R ->
+  norm_loop fuel R s = (r2, s2) -> 8 <= j - (s2 - s) ->
+  exists v' c' rest',
+    bd_normalize fuel v r c rest pos = (v', r2, c', rest', pos + (s2 - s)) /\
+    drel v' r2 c' rest' r2 D (j - (s2 - s)).
+Proof.
+  induction fuel as [|f IH]; intros v r c rest pos R D j s r2 s2 Hrel HR Hn Hj; cbn [norm_loop] in Hn; cbn [bd_normalize].
+  - injection Hn as <- <-. exists v, c, rest. replace (s - s) with 0 by lia.
+    rewrite Z.add_0_r, Z.sub_0_r. split; [|destruct Hrel as (-> & ?); split; [reflexivity|assumption]].
+    destruct Hrel as (-> & _). reflexivity.
+  - destruct Hrel as (Er & Hc & Hb & a & Ha & Ev & Hv & ED & Ej & HD). subst r.
+    destruct (R <? 128) eqn:ER.
+    2:{ injection Hn as <- <-. exists v, c, rest. replace (s - s) with 0 by lia.
+        rewrite Z.add_0_r, Z.sub_0_r. split; [reflexivity|].
+        split; [reflexivity|]. split; [exact Hc|]. split; [exact Hb|]. exists a. repeat split; assumption. }
+    apply Z.ltb_lt in ER.
+    destruct (norm_loop_spec f (R * 2) (s + 1)) as (t & Ht & Hn2). rewrite Hn2 in Hn.
+    injection Hn as <- <-.
+    assert (Hvs : v < 32768).
+    { assert (v < R * 256) by (eapply (drel_small v R c rest R D j); [|lia];
+        split; [reflexivity|]; split; [exact Hc|]; split; [exact Hb|]; exists a; repeat split; assumption). lia. }
+    assert (Hv0 : 0 <= v) by (subst v; destruct (pow_split c Hc) as (_ & Hg & _); nia).
+    assert (HD2 : D < R * 2 * 2 ^ (j - 1)).
+    { replace (R * 2 * 2 ^ (j - 1)) with (R * (2 ^ 1 * 2 ^ (j - 1))) by ring.
+      rewrite <- Z.pow_add_r by lia. replace (1 + (j - 1)) with j by lia. exact HD. }
+    unfold bd_shift1. rewrite (Z.mod_small (v * 2) 65536) by lia.
+    destruct (c + 1 =? 8) eqn:Ec.
+    + apply Z.eqb_eq in Ec. assert (c = 7) by lia. subst c.
+      destruct rest as [|b rest'].
+      { cbn [length] in Ej. lia. }
+      pose proof (Forall_inv Hb) as Hb1. pose proof (Forall_inv_tail Hb) as Hb2.
+      assert (Hrel2 : drel (v * 2 + b) (R * 2) 0 rest' (R * 2) D (j - 1)).
+      { split; [reflexivity|]. split; [lia|]. split; [exact Hb2|].
+        exists (a * 256 + b). unfold is_byte in Hb1. cbn [length bval] in ED, Ej.
+        change (2 ^ 7) with 128 in *. change (2 ^ 0) with 1.
+        replace (8 * Z.of_nat (S (length rest'))) with (8 + 8 * Z.of_nat (length rest')) in ED by lia.
+        rewrite Z.pow_add_r in ED by lia. change (2 ^ 8) with 256 in ED.
+        repeat split; try lia; try (rewrite ED; ring);
+          try (replace (8 * Z.of_nat (length rest') + 8 - 0) with (j - 1) by lia; exact HD2). }
+      destruct (IH (v * 2 + b) (R * 2) 0 rest' (pos + 1) (R * 2) D (j - 1) (s + 1) (R * 2 * 2 ^ t) (s + 1 + t)
+                  Hrel2 ltac:(lia) Hn2 ltac:(lia)) as (v' & c' & r' & E1 & E2).
+      exists v', c', r'. split.
+      * rewrite E1. f_equal. lia.
+      * replace (j - (s + 1 + t - s)) with (j - 1 - (s + 1 + t - (s + 1))) by lia. exact E2.
+    + apply Z.eqb_neq in Ec.
+      assert (Hrel2 : drel (v * 2) (R * 2) (c + 1) rest (R * 2) D (j - 1)).
+      { split; [reflexivity|]. split; [lia|]. split; [exact Hb|].
+        exists a. repeat split; try lia; try (rewrite Ev; rewrite Z.pow_add_r by lia; ring);
+          try (replace (8 * Z.of_nat (length rest) + 8 - (c + 1)) with (j - 1) by lia; exact HD2). }
+      destruct (IH (v * 2) (R * 2) (c + 1) rest (pos + 1) (R * 2) D (j - 1) (s + 1) (R * 2 * 2 ^ t) (s + 1 + t)
+                  Hrel2 ltac:(lia) Hn2 ltac:(lia)) as (v' & c' & r' & E1 & E2).
+      exists v', c', r'. split.
+      * rewrite E1. f_equal. lia.
+      * replace (j - (s + 1 + t - s)) with (j - 1 - (s + 1 + t - (s + 1))) by lia. exact E2.
 Qed.
